@@ -17,7 +17,7 @@ MANIFEST = {
             "all operation sequences interleaved with an allocation oracle that may fail or grant anything at any point (no write outside "
             "the allocation, capacity >= size, failure leaves the container unchanged, null termination, append_uint parses back, the "
             "non-format part of _op_vformat); ArenaHash refines a finite map with every node reachable from bucket hash % bucket_count; "
-            "ArenaPool is a LIFO of released blocks; ArenaTree: tree_refines_set for every mixed insert/remove history (ordered-set "
+            "ArenaPool is a LIFO of released blocks; Arena::dup and ArenaString<N>::set_data store exactly the bytes, null terminated; ArenaTree: tree_refines_set for every mixed insert/remove history (ordered-set "
             "refinement, BST order and red-black balance - root black, no red-red, equal black height - preserved, fuel never exhausted "
             "below 2^64 nodes); ArenaList: list_refines_list for all seven operations with both link directions consistent; the "
             "word-level bit primitives equal the List Bool specification. The models are tied to the real classes by running both on the "
@@ -236,6 +236,39 @@ def sc_empty(rng, n):
     # lists and trees
     ops += ["L new 1", "L new 2", "T new 1", "T new 2", "L 1 swap 2", "L 2 append 1", "L 1 dump", "L 2 dump", "L 2 swap 1", "L 2 prepend 2",
             "L 1 dump", "L 2 dump", "T 1 swap 2", "T 2 insert 5", "T 1 get 5", "T 2 get 5", "T 2 swap 1", "T 2 insert 6", "T 1 get 5", "T 1 get 6", "T 2 get 6"]
+    ops.append("A stats")
+    return ops
+
+
+def sc_misc(rng, n):
+    """ArenaString<N>, Arena::dup, Span adaptors of ArenaVector, ArenaPool counters - interleaved on one arena"""
+    ops = [arena_new(rng), "Z new 1 16", "Z new 2 40", "V new 1 4", "V new 2 4", "T new 1"]
+    keys = []
+    for _ in range(n):
+        r = rng.random()
+        if r < 0.3:
+            z = rng.choice([1, 2])
+            ln = rng.choice([0, 1, 3, 10, 11, 12, 13, 34, 35, 36, 37, 60, 200, 1500])
+            ops.append(rng.choice(["Z %d set %s" % (z, rbytes(rng, ln)), "Z %d set %s" % (z, rbytes(rng, ln)), "Z %d reset" % z]))
+        elif r < 0.45:
+            ops.append("A dup %s %d" % (rbytes(rng, rng.choice([0, 1, 6, 7, 8, 9, 15, 16, 17, 100, 1017, 3000])), rng.randrange(0, 2)))
+        elif r < 0.7:
+            v = rng.choice([1, 2])
+            ops.append(rng.choice(["V %d append %d" % (v, rng.randrange(0, 5)), "V %d iter" % v, "V %d riter" % v, "V %d first_last" % v,
+                                   "V %d span_eq %d" % (v, 3 - v), "V %d pop" % v, "V %d clear" % v]))
+        elif r < 0.95:
+            if keys and rng.random() < 0.5:
+                k = keys.pop(rng.randrange(len(keys))); ops.append("T 1 remove %d" % k)
+            else:
+                k = rng.randrange(0, 60); ops.append("T 1 insert %d" % k)
+                if k not in keys:
+                    keys.append(k)
+            ops.append("A pool count")
+        elif r < 0.97:
+            ops += ["A pool reset", "A pool count"]
+        else:
+            ops += ["A reset %s" % rng.choice(["soft", "hard"]), "Z new 1 16", "Z new 2 40", "V new 1 4", "V new 2 4", "T new 1"]
+            keys = []
     ops.append("A stats")
     return ops
 
@@ -459,7 +492,7 @@ def sc_mixed(rng, n):
     return ops
 
 
-SCENARIOS = [("empty", sc_empty, 3), ("arena", sc_arena, 3), ("arena_reuse", sc_arena_reuse, 2), ("dyn_only", sc_dyn_only, 1), ("vector", sc_vector, 3), ("hash", sc_hash, 2),
+SCENARIOS = [("empty", sc_empty, 3), ("misc", sc_misc, 2), ("arena", sc_arena, 3), ("arena_reuse", sc_arena_reuse, 2), ("dyn_only", sc_dyn_only, 1), ("vector", sc_vector, 3), ("hash", sc_hash, 2),
              ("tree", sc_tree, 3), ("list", sc_list, 1), ("bits", sc_bits, 3), ("string", sc_string, 3), ("mixed", sc_mixed, 3)]
 
 # deterministic witnesses of the defects found while building the check (kept as regression scenarios)
